@@ -95,3 +95,23 @@ s.ens("component-is-reach-set", PROPS, lambda c, A, R: z3.Implies(
     c.forall(["id"], lambda v: sel(R.result.get(), v) == reach_fn(c)(A.n.term, v))))
 s.ens_all("state-unchanged", ("C14", "C08"), lambda c, A, R: same_state(c, A.snap0["H"], R.snap["H"]))
 s.exc("XGIError", "not-a-node", PROPS, lambda c, A, R: z3.Not(z3.And(c.hashable(A.n.term), sel(A.snap0["H"].nk, A.n.term))))
+
+
+# ------------------------------------------------------------------ is_connected
+def closed(c, S, s, P):
+    return z3.And(sel(P, s), c.forall(["id", "id"], lambda v, w: z3.Implies(z3.And(sel(P, v), nbr(c, S, v, w)), sel(P, w))))
+s = contract(CQ + "is_connected", [("H", "net:H")])
+s.modifies = []
+s.result = "bool"
+s.req("UInv", lambda c, A: UInv(c, A.snap0["H"]), PROPS)
+s.req("reach-rules", lambda c, A: c.forall(["id"], lambda x: z3.Implies(sel(A.snap0["H"].nk, x), reach_axioms(c, A.snap0["H"], x))), PROPS)
+s.req("reach-least", lambda c, A: c.forall(["id", "set"], lambda x, P: z3.Implies(closed(c, A.snap0["H"], x, P), c.forall(["id"], lambda v: z3.Implies(reach_fn(c)(x, v), sel(P, v))))), PROPS)
+s.req("reach-within-nodes", lambda c, A: c.forall(["id", "id"], lambda x, v: z3.Implies(z3.And(sel(A.snap0["H"].nk, x), reach_fn(c)(x, v)), sel(A.snap0["H"].nk, v))), PROPS)
+s.req("card-of-a-full-subset", lambda c, A: c.forall(["set"], lambda P: z3.Implies(z3.And(c.subset(P, A.snap0["H"].nk), c.card(P) == c.card(A.snap0["H"].nk)), P == A.snap0["H"].nk)), PROPS)
+s.ens("connected-iff-one-node-reaches-all", PROPS, lambda c, A, R: z3.And(
+    z3.Implies(R.result.term, c.exists(["id"], lambda x: z3.And(sel(A.snap0["H"].nk, x), c.forall(["id"], lambda v: z3.Implies(sel(A.snap0["H"].nk, v), reach_fn(c)(x, v)))))),
+    z3.Implies(z3.Not(R.result.term), c.exists(["id", "id"], lambda x, v: z3.And(sel(A.snap0["H"].nk, x), sel(A.snap0["H"].nk, v), z3.Not(reach_fn(c)(x, v)))))))
+s.ens_all("state-unchanged", ("C14", "C08"), lambda c, A, R: same_state(c, A.snap0["H"], R.snap["H"]))
+s.exc("IndexError", "no-nodes", PROPS, lambda c, A, R: A.snap0["H"].nk == c.EMPTY)
+s.notes = ("reach is the least relation closed under the neighbour rule: its rules, its induction principle (for every set), and the consequence that it stays within the node set are "
+           "stated as preconditions (definitional); `a subset of the node set with as many elements as the node set is the node set` is an assumed fact about finite cardinalities")
